@@ -105,7 +105,7 @@ Section DomCalls.
   (* Domain of a starred name, base name registered with length l, starred name registered with the same length: found *)
   Lemma dom_lookup_starred f st x i l j :
     Inv ct st -> starred x = false -> nonempty x = true ->
-    nlookup x (cs_names (cget st c)) = Some i -> obj_len (heap st) i = Ok l ->
+    nlookup x (cs_names (cget st c)) = Some i -> obj_length (heap st) i = Ok l ->
     nlookup (x ++ [Registry.cStar]) (cs_names (cget (collect st) c)) = Some j ->
     klookup (KDom (x ++ [Registry.cStar]) l) (cs_canon (cget (collect st) c)) = Some j ->
     dom_call (S (S f)) ct c st (@Some pstr (x ++ [Registry.cStar])) None None None = (collect st, CRet j false).
@@ -143,10 +143,7 @@ Section DomCalls.
   Proof.
     intros I Hs Hne Hn Hc Hk. rewrite dom_call_S. unfold dom_body at 1. rewrite Hci. cbn [resolve_name].
     rewrite dom_len1_none. rewrite Hne. cbn [negb]. unfold dom_nested. rewrite Hs.
-    destruct (Z.eqb l 0) eqn:El.
-    - exists st. split; [left; reflexivity|]. unfold dom_finish. cbn [option_map]. unfold sing_lookup.
-      rewrite Hne, Hn, Hk. reflexivity.
-    - rewrite (cname_unstarred nm Hs). cbv beta.
+    + rewrite (cname_unstarred nm Hs). cbv beta.
       rewrite (dom_lookup_starred_none f st nm I Hs Hne Hn Hc).
       replace (is_singleton_err eSingleton) with true by reflexivity.
       exists (collect (collect st)). split; [right; reflexivity|].
@@ -159,7 +156,7 @@ Section DomCalls.
   (* ~d for d = nm (unstarred, length l, registered as i), complement name not registered: it is created *)
   Lemma dom_create_complement f st nm l i :
     Inv ct st -> starred nm = false -> nonempty nm = true ->
-    nlookup nm (cs_names (cget st c)) = Some i -> obj_len (heap st) i = Ok l ->
+    nlookup nm (cs_names (cget st c)) = Some i -> obj_length (heap st) i = Ok l ->
     nlookup (nm ++ [Registry.cStar]) (cs_names (cget st c)) = None ->
     klookup (KDom (nm ++ [Registry.cStar]) l) (cs_canon (cget st c)) = None ->
     exists st1, (st1 = st \/ st1 = collect st) /\
@@ -170,10 +167,7 @@ Section DomCalls.
     rewrite dom_len1_none.
     assert (Hne' : nonempty (nm ++ [Registry.cStar]) = true) by (destruct nm; reflexivity).
     rewrite Hne'. cbn [negb]. unfold dom_nested. rewrite starred_app, cname_star.
-    destruct (Z.eqb l 0) eqn:El.
-    - exists st. split; [left; reflexivity|]. unfold dom_finish. cbn [option_map]. unfold sing_lookup.
-      rewrite Hne', Hc, Hk. reflexivity.
-    - rewrite (dom_lookup_unstarred f st nm Hs Hne), Hn, Hl. rewrite Z.eqb_refl.
+    + rewrite (dom_lookup_unstarred f st nm Hs Hne), Hn, Hl. rewrite Z.eqb_refl.
       exists (collect st). split; [right; reflexivity|].
       unfold dom_finish. cbn [option_map]. unfold sing_lookup. rewrite Hne'.
       rewrite (unreg_collect ct st c _ I c_lt Hc), (kunreg_collect ct st c _ I c_lt Hk). reflexivity.
